@@ -12,6 +12,7 @@ import copy
 from sim import sio
 from sim.world import make_world
 from sim.util import typed_eq
+from sim.choices import derive
 from .common import V, trepr, pkt_key, REAL_SERVER, STUBS
 from .scene import Scene
 
@@ -475,7 +476,11 @@ def _run_twin(case, cfg, instrumented, w):
             kwq = {}
             if cfg.get('pubsub') and w.choices.chance('app', 1, 2, 'igq'):
                 kwq['ignore_queue'] = True     # local clients only
-            w.api('s', 'emit', 'news', tag, to=to, namespace=ns,
+            pay = tag
+            pk = derive(case['seed'], 'payload', tag) % 12
+            if pk < 6:
+                pay = [0, '', [], {}, False, b''][pk]
+            w.api('s', 'emit', 'news', pay, to=to, namespace=ns,
                   skip_sid=skip, **kwq)
         elif k == 'emit_cb':
             _, p, ns, tag = op
